@@ -72,6 +72,10 @@ def index_bound_violations(func):
                                 if isinstance(prev.value, ast.Constant) and isinstance(prev.value.value, int) and prev.value.value != 0:
                                     out.append((prev.lineno, 'the scan of %s starts at position %d: the entries before it are never examined' % (seq, prev.value.value)))
                                 break
+                for x in ast.walk(w):
+                    if isinstance(x, ast.Assign) and len(x.targets) == 1 and isinstance(x.targets[0], ast.Name) and x.targets[0].id == l.id and isinstance(x.value, ast.Constant) and x is not w:
+                        if any(x is y for st in w.body for y in ast.walk(st)):
+                            out.append((x.lineno, 'the scan of %s resets %s to %r in every round: it never gets past that position' % (seq, l.id, x.value.value)))
                 if not any(isinstance(x, ast.Name) and x.id == l.id and isinstance(x.ctx, ast.Store) for st in w.body for x in ast.walk(st)):
                     out.append((w.lineno, 'the scan of %s never advances %s: the same entry is examined for ever' % (seq, l.id)))
                 for x in ast.walk(w):
